@@ -8,10 +8,12 @@ Inductive outcome := Term (h : bool) | Fall (h : bool).
 (* every path through a skeleton, from a holding state to an outcome; conditions are free *)
 Inductive exec : fl -> bool -> outcome -> Prop :=
 | XSkip h : exec FSkip h (Fall h)
+| XEnd h : exec FEnd h (Term false)
 | XRet h : exec FRet h (Term h)
 | XRaise h : exec FRaise h (Term h)
 | XStore h : exec FStore h (Fall false)
 | XPut h : exec FPut h (Fall false)
+| XMark h : exec FMark h (Fall true)
 | XGetOk fail h : exec (FGet fail) h (Fall true)
 | XGetFail fail h o : exec fail h o -> exec (FGet fail) h o
 | XSeqT a b h hh : exec a h (Term hh) -> exec (FSeq a b) h (Term hh)
@@ -42,12 +44,14 @@ Qed.
 Theorem leakfree_sound : forall t hc r, leakfree hc t = Some r ->
   forall ha o, (ha = true -> hc = true) -> exec t ha o -> covers r o.
 Proof.
-  induction t as [| | | | |fail IH|a IHa b IHb|a IHa b IHb]; intros hc r H ha o Hle X; cbn [leakfree] in H.
+  induction t as [| | | | | | |fail IH|a IHa b IHb|a IHa b IHb]; intros hc r H ha o Hle X; cbn [leakfree] in H.
   - inversion H; subst. inversion X; subst. cbn. exists hc. split; [reflexivity|exact Hle].
+  - inversion H; subst. inversion X; subst. cbn. reflexivity.
   - destruct hc; [discriminate|]. inversion H; subst. inversion X; subst. cbn. destruct ha; [specialize (Hle eq_refl); discriminate|reflexivity].
   - destruct hc; [discriminate|]. inversion H; subst. inversion X; subst. cbn. destruct ha; [specialize (Hle eq_refl); discriminate|reflexivity].
   - inversion H; subst. inversion X; subst. cbn. exists false. split; [reflexivity|auto].
   - inversion H; subst. inversion X; subst. cbn. exists false. split; [reflexivity|auto].
+  - inversion H; subst. inversion X; subst. cbn. exists true. split; [reflexivity|auto].
   - destruct hc; [discriminate|]. destruct (leakfree false fail) as [rf|] eqn:Ef; [|discriminate]. inversion H; subst.
     inversion X; subst.
     + refine (covers_merge_l (Some true) rf (Fall true) _). cbn. exists true. split; [reflexivity|auto].
